@@ -26,6 +26,7 @@ Property text ↔ theorems:
 -/
 import NtpVerif.Proofs.Select
 import NtpVerif.Proofs.CtrlLoop
+import NtpVerif.Model.SourceSM
 
 namespace NtpVerif.C03
 open NtpVerif.Select NtpVerif.Leap NtpVerif.CtrlLoop
@@ -225,6 +226,150 @@ example : sweep [(⟨0x8000000000000000⟩, .stop), (⟨0⟩, .start)] Sweep.ini
 example : boundLe (⟨0x8000000000000000⟩, .stop) (⟨0⟩, .start) = true ∧
     boundLe (⟨0⟩, .start) (⟨0x8000000000000000⟩, .stop) = false := by decide
 
+/-! #### an answer that makes its source unusable never contributes
+
+Source side (`NtpVerif.Model.SourceSM`, tied by stream `sm_c03`, which compares the ORDER of the controller calls
+with the implementation's): every measurement a source hands to its controller is preceded, within the same step, by
+the `set_usable` computed for the very answer that produced it. Controller side (`NtpVerif.Model.CtrlLoop`): once the
+usability report `false` has been handled, the source's entry is not among the candidates handed to `select` while its
+measurements are processed — so the measurements of an answer that makes the source unusable (stratum not below ours,
+loop, unreachable) never contribute to the estimate used for steering. -/
+
+/-- **C03.usable_reported_before_measurements** — in every history of the source state machine, a measurement is only
+    ever delivered by an accepted answer, whose calls are exactly `[set_usable u, measurement, measurement]`: the
+    usability of that answer reaches the controller first. -/
+theorem usable_reported_before_measurements (s : SourceSM.State) (ops : List SourceSM.Op) :
+    ∀ o ∈ SourceSM.observations s ops, ∀ m out, SourceSM.Call.measurement m out ∈ o.calls →
+      ∃ u k, o = .incoming (.accepted u m k) ∧
+        o.calls = [.setUsable u, .measurement m true, .measurement m false] := by
+  intro o _ m out h
+  cases o with
+  | timer t =>
+    cases t <;> simp [SourceSM.Obs.calls, SourceSM.TimerOut.calls] at h
+  | incoming i =>
+    cases i with
+    | accepted u m' k =>
+      simp only [SourceSM.Obs.calls, SourceSM.InOut.calls, List.mem_cons, reduceCtorEq, false_or,
+        SourceSM.Call.measurement.injEq, List.not_mem_nil, or_false] at h
+      have hm : m = m' := by rcases h with h | h <;> exact h.1
+      subst hm
+      exact ⟨u, k, rfl, rfl⟩
+    | ignore => simp [SourceSM.Obs.calls, SourceSM.InOut.calls] at h
+    | demobilize => simp [SourceSM.Obs.calls, SourceSM.InOut.calls] at h
+    | panic => simp [SourceSM.Obs.calls, SourceSM.InOut.calls] at h
+
+/-- the controller's last handled usability report for `id` is not `true` -/
+def NotUsable (c : Ctrl) (id : CtrlLoop.Id) : Prop := ∀ e, lookup c.srcs id = some e → e.usable = false
+
+/-- the controller state `update_clock` works on while handling a source message -/
+def selectState (c : Ctrl) (id : CtrlLoop.Id) (snap : Cand) (t : Nat) (vals : List (CtrlLoop.Id × Cand)) : Ctrl :=
+  { c with srcs := refresh (progress (storeMsg c.srcs id snap t) t) vals }
+
+theorem notUsable_not_candidate (c : Ctrl) (hnd : (Keys c.srcs).Nodup) (id : CtrlLoop.Id) (h : NotUsable c id) :
+    ∀ s, (id, s) ∉ candidateEntries c := by
+  intro s hs
+  have := (mem_candidateEntries c hnd id).mp ⟨s, hs⟩
+  cases hl : lookup c.srcs id with
+  | none => rw [hl] at this; simp [absEntry] at this
+  | some e =>
+    rw [hl] at this
+    simp only [absEntry, Option.map_some, Option.some.injEq, Prod.mk.injEq] at this
+    rw [h e hl] at this
+    exact absurd this.2 (by simp)
+
+theorem notUsable_of_abs (c c' : Ctrl) (id : CtrlLoop.Id)
+    (h : absEntry (lookup c'.srcs id) = absEntry (lookup c.srcs id) ∨
+         ∃ f : Entry → Entry, (∀ e, (f e).usable = e.usable) ∧ lookup c'.srcs id = (lookup c.srcs id).map f)
+    (hn : NotUsable c id) : NotUsable c' id := by
+  intro e' he'
+  rcases h with h | ⟨f, hf, h⟩
+  · rw [he'] at h
+    cases hl : lookup c.srcs id with
+    | none => rw [hl] at h; simp [absEntry] at h
+    | some e =>
+      rw [hl] at h
+      simp only [absEntry, Option.map_some, Option.some.injEq, Prod.mk.injEq] at h
+      rw [h.2]; exact hn e hl
+  · rw [he'] at h
+    cases hl : lookup c.srcs id with
+    | none => rw [hl] at h; simp at h
+    | some e =>
+      rw [hl] at h
+      simp only [Option.map_some, Option.some.injEq] at h
+      rw [h, hf]; exact hn e hl
+
+theorem storeMsg_usable (m : List (CtrlLoop.Id × Entry)) (id k : CtrlLoop.Id) (snap : Cand) (t : Nat) :
+    ∃ f : Entry → Entry, (∀ e, (f e).usable = e.usable) ∧ lookup (storeMsg m id snap t) k = (lookup m k).map f := by
+  unfold storeMsg
+  rw [lookup_modify]
+  by_cases hk : k = id
+  · exact ⟨fun e => { e with snap := some snap, stamp := t, time := t }, fun _ => rfl, by simp [hk]⟩
+  · exact ⟨fun e => e, fun _ => rfl, by simp [hk]⟩
+
+/-- the state `select` sees while a message of ANY source is handled keeps `id` out, if `id` is not usable -/
+theorem selectState_notUsable (c : Ctrl) (id id' : CtrlLoop.Id) (snap : Cand) (t : Nat)
+    (vals : List (CtrlLoop.Id × Cand)) (hn : NotUsable c id) : NotUsable (selectState c id' snap t vals) id := by
+  obtain ⟨f, hf, hl⟩ := storeMsg_usable c.srcs id' id snap t
+  have h1 : NotUsable { c with srcs := storeMsg c.srcs id' snap t } id :=
+    notUsable_of_abs c _ id (Or.inr ⟨f, hf, hl⟩) hn
+  have h2 : NotUsable { c with srcs := progress (storeMsg c.srcs id' snap t) t } id :=
+    notUsable_of_abs _ _ id (Or.inl (lookup_progress _ t id)) h1
+  exact notUsable_of_abs { c with srcs := progress (storeMsg c.srcs id' snap t) t } (selectState c id' snap t vals) id
+    (Or.inl (by simp only [selectState]; exact lookup_refresh _ vals id)) h2
+
+/-- handling a source message of any source keeps `id` not usable -/
+theorem sourceMessage_notUsable (cfg : Cfg) (c : Ctrl) (id id' : CtrlLoop.Id) (snap : Cand) (t : Nat)
+    (vals : List (CtrlLoop.Id × Cand)) (steer : List String) (hn : NotUsable c id) :
+    NotUsable (sourceMessage cfg c id' snap t vals steer).1 id := by
+  unfold sourceMessage
+  split
+  · exact hn
+  · simp only
+    split
+    · obtain ⟨f, hf, hl⟩ := storeMsg_usable c.srcs id' id snap t
+      exact notUsable_of_abs c _ id (Or.inr ⟨f, hf, hl⟩) hn
+    · have := selectState_notUsable c id id' snap t vals hn
+      intro e he
+      rw [updateClock_srcs] at he
+      exact this e he
+
+/-- **C03.unusable_answer_never_contributes** — the controller calls of an answer that makes its source unusable,
+    `[set_usable false, measurement, measurement]` (order: `usable_reported_before_measurements`), handled in that
+    order: after the usability report the source is not usable, it is absent from the candidates `select` sees while
+    its first measurement is processed, still not usable afterwards, and absent again while the second is processed.
+    With `select_members` (every selected source is one of the candidates) none of its measurements contributes. -/
+theorem unusable_answer_never_contributes (cfg : Cfg) (c : Ctrl) (hnd : (Keys c.srcs).Nodup) (id : CtrlLoop.Id)
+    (snap1 snap2 : Cand) (t1 t2 : Nat) (vals1 vals2 : List (CtrlLoop.Id × Cand)) (steer1 : List String) :
+    let c1 := (dispatch cfg c id (.usability false)).1
+    let c2 := (dispatch cfg c1 id (.source snap1 t1 vals1 steer1)).1
+    NotUsable c1 id ∧ (∀ s, (id, s) ∉ candidateEntries (selectState c1 id snap1 t1 vals1)) ∧
+    NotUsable c2 id ∧ (∀ s, (id, s) ∉ candidateEntries (selectState c2 id snap2 t2 vals2)) := by
+  intro c1 c2
+  have hk1 : (Keys c1.srcs).Nodup := by
+    simp only [c1, dispatch, sourceUpdate, keys_modify]; exact hnd
+  have h1 : NotUsable c1 id := by
+    intro e he
+    simp only [c1, dispatch, sourceUpdate, lookup_modify, if_true] at he
+    cases hl : lookup c.srcs id with
+    | none => rw [hl] at he; simp at he
+    | some e0 => rw [hl] at he; simp only [Option.map_some, Option.some.injEq] at he; rw [← he]
+  have hkeys : ∀ (c0 : Ctrl) (sn : Cand) (t : Nat) (vals : List (CtrlLoop.Id × Cand)), (Keys c0.srcs).Nodup →
+      (Keys (selectState c0 id sn t vals).srcs).Nodup := by
+    intro c0 sn t vals h
+    simp only [selectState, keys_refresh, keys_progress, storeMsg, keys_modify]; exact h
+  have h2 : NotUsable c2 id := sourceMessage_notUsable cfg c1 id id snap1 t1 vals1 steer1 h1
+  have hk2 : (Keys c2.srcs).Nodup := by
+    show (Keys (sourceMessage cfg c1 id snap1 t1 vals1 steer1).1.srcs).Nodup
+    unfold sourceMessage
+    split
+    · exact hk1
+    · simp only
+      split
+      · simp only [storeMsg, keys_modify]; exact hk1
+      · rw [updateClock_srcs]; exact hkeys c1 snap1 t1 vals1 hk1
+  exact ⟨h1, notUsable_not_candidate _ (hkeys c1 snap1 t1 vals1 hk1) id (selectState_notUsable c1 id id snap1 t1 vals1 h1),
+    h2, notUsable_not_candidate _ (hkeys c2 snap2 t2 vals2 hk2) id (selectState_notUsable c2 id id snap2 t2 vals2 h2)⟩
+
 end NtpVerif.C03
 
 #print axioms NtpVerif.C03.mem_elig
@@ -238,3 +383,5 @@ end NtpVerif.C03
 #print axioms NtpVerif.C03.agreeing_selected
 #print axioms NtpVerif.C03.steer_needs_selection
 #print axioms NtpVerif.C03.only_measurements_steer
+#print axioms NtpVerif.C03.usable_reported_before_measurements
+#print axioms NtpVerif.C03.unusable_answer_never_contributes
